@@ -1,9 +1,65 @@
 import Pandora.Drv.Util
+import Pandora.Model.C08
+import Pandora.Spec.C08
 
 namespace Pandora.Drv.C08
-open Pandora.Drv
+open Pandora.Drv Pandora.Model.C08
 
-/-- stub: replaced when the property's model driver is written -/
-def handle : Handler := fun _ _ => ("-", "skip:not-built")
+def parseKind : String → Option Kind
+  | "uri" => some .uri | "uripost" => some .uripost | "raw" => some .raw
+  | "jsonl" => some .jsonLines | "jsonarr" => some .jsonArray | "grpcjson" => some .grpcJson
+  | "httpscn" => some .httpScenario | "grpcscn" => some .grpcScenario | "genjson" => some .genericJson
+  | _ => none
+
+def runName : RunRes → String
+  | .nil => "nil" | .canceled => "canceled" | .errLimit => "limit" | .errPasses => "passes"
+  | .errNoAmmo => "noammo" | .errOther => "other"
+
+def parseRun (s : String) : Spec.C08.RunClass :=
+  match s with
+  | "nil" => .nil | "canceled" => .canceled | "limit" => .limit | "passes" => .passes
+  | "noammo" => .noammo | "noreturn" => .noreturn | _ => .other
+
+def parseEnd : String → Option Spec.C08.EndClass
+  | "closed" => some .closed | "blocked" => some .blocked | "spinning" => some .spinning | _ => none
+
+structure Line where
+  inp : Input
+  n : Nat
+  cell : Spec.C08.Cell
+
+def parseLine (kv : List (String × String)) : Option Line := do
+  let kind ← parseKind (getS kv "kind")
+  let limit ← getN? kv "limit"
+  let passes ← getN? kv "passes"
+  let n ← getN? kv "n"
+  let cap ← getN? kv "cap"
+  pure { inp := { kind, preload := getS kv "preload" == "1", b := ⟨limit, passes⟩, cancelAt := if cap = 0 then none else some cap },
+         n, cell := { limit, passes, n, cap } }
+
+/-- the model's observation of a cell, in the harness' format; `ops` is not predicted (echoed from the implementation) -/
+def modelObs (l : Line) (ops : String) : String :=
+  match run l.inp l.n with
+  | none => s!"delivered=? cut=0 run=noreturn end=spinning ops={ops}"
+  | some o =>
+    let cut := match l.inp.cancelAt with | some c => decide (c ≤ o.delivered.length) | none => false
+    s!"delivered={o.delivered.length} cut={if cut then 1 else 0} run={runName o.run} end={if o.sinkClosed then "closed" else "blocked"} ops={ops}"
+
+def parseObs (kv : List (String × String)) : Option Spec.C08.Obs := do
+  pure { delivered := ← getN? kv "delivered", cut := getS kv "cut" == "1", run := parseRun (getS kv "run"),
+         end_ := ← parseEnd (getS kv "end"), ops := ← getN? kv "ops" }
+
+def handle : Handler := fun input impl =>
+  match parseLine (parseKV input) with
+  | none => ("-", "fail:driver:unparsable input")
+  | some l =>
+    if l.n = 0 then ("-", "skip:empty-file") else
+    let ikv := parseKV impl
+    match lookup ikv "construct" with
+    | some e => (modelObs l "0", s!"fail:construct:{e}")
+    | none =>
+      match parseObs ikv with
+      | none => (modelObs l "0", s!"fail:crash:{impl.take 120}")
+      | some o => (modelObs l (getS ikv "ops"), Spec.C08.judge l.cell o)
 
 end Pandora.Drv.C08
